@@ -73,6 +73,7 @@ pub fn run(tier: &str) -> Result<Report, String> {
             fs.extend(templates(&ctx.user, false, pool));
             fs
         } else {
+            alpha.consts = vec![true, false];
             alpha.un = vec![Un::Not, Un::EF, Un::AG];
             alpha.bi = vec![Bi::And, Bi::Or, Bi::Xor, Bi::Imp, Bi::Iff, Bi::EU, Bi::AW];
             let mut g = Gen::new(alpha);
